@@ -814,3 +814,12 @@ func (c *VCheck) CompareInstant(truth, got *VInstant) {
 
 // ChangePositions exposes the raw change-log positions to harnesses of other packages.
 func (h *VHist) ChangePositions(ds *Dataset) []uint64 { return h.changePositions(ds) }
+
+// SnapshotAt / CompareInstant exported for harnesses of other packages.
+func (c *VCheck) SnapshotAt(ids []string, scopes [][]string, at int64, current bool) *VInstant {
+	return c.snapshotAt(ids, scopes, at, current)
+}
+
+func (c *VCheck) Fail(clause, what string) { c.fail(clause, what, nil) }
+
+func VScopes(dss []string) [][]string { return vScopes(dss) }
